@@ -40,6 +40,7 @@ def unsent (posts : Nat) : Bool := decide (posts = 0)
 /-- this answer is the server's real response to the call / the acceptance of the notification -/
 def acceptedAns (k : Kind) : Ans → Bool
   | .ok p true =>
+    p != .strictRefused &&
     (match k with
      | .notif => true
      | .call => p == .json || p == .sse)
